@@ -67,6 +67,17 @@ def q_menv1(c, A, ctx):
     return c.molecule_environment(mols[A["mol_i"] % len(mols)], radius=A["r"])
 
 
+def q_menv_held(c, A, ctx):
+    # the caller keeps the molecule it got the first time and passes the SAME
+    # object back in later on - also after the crystal has changed, and also to
+    # a copy of the crystal
+    box = ctx.setdefault("box", {})
+    if "mol" not in box:
+        mols = c.symmetry_unique_molecules()
+        box["mol"] = mols[A["mol_i"] % len(mols)]
+    return c.molecule_environment(box["mol"], radius=A["r"])
+
+
 def q_menv(c, A, ctx):
     return c.molecule_environments(A["r"])
 
@@ -305,6 +316,7 @@ QUERIES = {
     "agsur": (q_agsur, "C"),
     "menv1": (q_menv1, "C"),
     "menv": (q_menv, "C"),
+    "menv_held": (q_menv_held, "C"),
     "density": (q_density, "C"),
     "charges": (q_charges, "C"),
     "as_P1": (q_as_P1, "C"),
